@@ -10,7 +10,11 @@
 //! `[count; type code; d]`, where d = result - source payload for results of an integer type from a non-float source.
 #[path = "../util.rs"]
 mod util;
-use opcua::types::{Variant, VariantTypeId};
+use opcua::server::address_space::types::AddressSpace;
+use opcua::server::events::event_filter;
+use opcua::types::operand::Operand;
+use opcua::types::service_types::{ContentFilter, ContentFilterElement, FilterOperator};
+use opcua::types::{NodeId, Variant, VariantTypeId};
 use util::*;
 
 #[derive(Clone, Copy, PartialEq, Debug)]
@@ -85,15 +89,98 @@ fn mk(t: T, p: i128) -> Variant {
 }
 
 #[derive(Clone, Debug)]
-pub struct Case { cast: bool, src: T, tgt: T, lo: i128, n: u32, extra: Vec<i128> }
+pub struct Conv { cast: bool, src: T, tgt: T, lo: i128, n: u32, extra: Vec<i128> }
+/// one comparison through the event filter operators: (type, payload) of both literal operands
+#[derive(Clone, Copy, Debug)]
+pub struct Item { t1: T, p1: i128, t2: T, p2: i128 }
+#[derive(Clone, Debug)]
+pub enum Case { Conv(Conv), Cmp(Vec<Item>) }
 pub struct P;
+
+pub const NUM: [T; 10] = [SByte, Byte, Int16, UInt16, Int32, UInt32, Int64, UInt64, Float, Double];
+
+thread_local! { static SPACE: AddressSpace = AddressSpace::new(); }
+/// eq, gt, lt, gte, lte of two literals, evaluated by the real where-clause evaluator (operator.rs):
+/// 0 / 1 per operator, -2 for a panic, -5 for an error status or a non-Boolean result
+fn five(a: &Variant, b: &Variant) -> Vec<i128> {
+    let ops = [FilterOperator::Equals, FilterOperator::GreaterThan, FilterOperator::LessThan,
+               FilterOperator::GreaterThanOrEqual, FilterOperator::LessThanOrEqual];
+    SPACE.with(|space| ops.iter().map(|op| {
+        let f = ContentFilter { elements: Some(vec![ContentFilterElement {
+            filter_operator: *op,
+            filter_operands: Some(vec![(&Operand::literal(a.clone())).into(), (&Operand::literal(b.clone())).into()]),
+        }]) };
+        match guarded(|| event_filter::verif_evaluate_where_clause(&NodeId::null(), &f, space)) {
+            Ok(Ok(Variant::Boolean(r))) => r as i128,
+            Ok(_) => -5,
+            Err(_) => -2,
+        }
+    }).collect())
+}
+/// the 64-bit pattern `bits` read as a payload of type `t` (truncated to the width of the type)
+fn reinterpret(t: T, bits: u64) -> i128 {
+    match t {
+        SByte => bits as i8 as i128, Byte => bits as u8 as i128, Int16 => bits as i16 as i128, UInt16 => bits as u16 as i128,
+        Int32 => bits as i32 as i128, UInt32 => bits as u32 as i128, Int64 => bits as i64 as i128, UInt64 => bits as i128,
+        Float => (bits as i64 as f32).to_bits() as i128, Double => (bits as i64 as f64).to_bits() as i128,
+        _ => 0,
+    }
+}
+/// the number `x` as a payload of type `t`, if it is in range (floats: rounded)
+fn as_payload(t: T, x: i128) -> Option<i128> {
+    match t {
+        Float => Some((x as f32).to_bits() as i128), Double => Some((x as f64).to_bits() as i128),
+        _ => { let (lo, hi) = t.range(); if x >= lo && x <= hi { Some(x) } else { None } }
+    }
+}
+fn cmp_points() -> Vec<i128> {
+    let mut v = vec![0i128, 1, -1, 2, 5, 100, -100];
+    for t in INTS { let (lo, hi) = t.range(); for d in -1..=1 { v.push(lo + d); v.push(hi + d); } }
+    for k in [24u32, 53] { for d in -1..=2 { v.push((1i128 << k) + d); v.push(-(1i128 << k) - d); } }
+    v.sort(); v.dedup(); v
+}
+/// a history of comparisons around one 64-bit pattern: the pattern under every pair of types (so the same
+/// bits are seen as different numbers one after the other), in both orders, then against its neighbours
+fn cmp_history(r: &mut Rng) -> Vec<Item> {
+    let bits: u64 = match r.below(6) {
+        0 => *r.pick(&[0u64, 1, u64::MAX, 1 << 63, (1 << 63) - 1, 1 << 31, (1 << 31) - 1, 1 << 32, (1 << 32) - 1, 0xffff_ffff_8000_0000, 0x80, 0x7f, 0xff, 0x8000, 0xffff, 0xffff_ffff_ffff_ff80,
+                       (1 << 24) + 1, (1 << 53) + 1, (1u64 << 63) + (1 << 10)]),
+        1 => r.next() >> r.below(64),
+        2 => (r.next() >> r.below(64)).wrapping_neg(),
+        3 => (1u64 << r.below(64)).wrapping_add(r.below(5)).wrapping_sub(2),
+        _ => r.next(),
+    };
+    // one type stays on one side while the same bits come by under every numeric type on the other
+    // side (so the operand that is converted has the same bit pattern, but not the same number, several
+    // times in a row), each pair in both orders
+    let w = *r.pick(&NUM);
+    let wbits = match r.below(3) { 0 => bits, 1 => bits.wrapping_add(1), _ => r.next() >> r.below(64) };
+    let pw = reinterpret(w, wbits);
+    let mut v = Vec::new();
+    for t2 in NUM {
+        let p2 = reinterpret(t2, bits);
+        v.push(Item { t1: w, p1: pw, t2, p2 });
+        if r.chance(1, 2) { v.push(Item { t1: t2, p1: p2, t2: w, p2: pw }); }
+    }
+    v
+}
+fn rand_item(r: &mut Rng) -> Item {
+    let t1 = *r.pick(&NUM); let t2 = *r.pick(&NUM);
+    let p1 = actual(t1, rand_payload(r, t1, t2));
+    let p2 = if r.chance(1, 3) {
+        // the same number (or a neighbour) under the other type, when it exists there
+        let x = if t1.is_float() { None } else { Some(p1 + r.range(-1, 1) as i128) };
+        x.and_then(|x| as_payload(t2, x)).unwrap_or_else(|| actual(t2, rand_payload(r, t2, t1)))
+    } else { actual(t2, rand_payload(r, t2, t1)) };
+    Item { t1, p1, t2, p2 }
+}
 
 /// the payload a Variant of type `t` built from `p` really carries (StatusCode drops unknown bits)
 fn actual(t: T, p: i128) -> i128 {
     if t == StatusCode { opcua::types::StatusCode::from_bits_truncate(p as u32).bits() as i128 } else { p }
 }
-fn one(cast: bool, src: T, tgt: T, p: i128) -> Case { Case { cast, src, tgt, lo: 0, n: 0, extra: vec![actual(src, p)] } }
-fn range(cast: bool, src: T, tgt: T, lo: i128, n: u32) -> Case { Case { cast, src, tgt, lo, n, extra: vec![] } }
+fn one(cast: bool, src: T, tgt: T, p: i128) -> Case { Case::Conv(Conv { cast, src, tgt, lo: 0, n: 0, extra: vec![actual(src, p)] }) }
+fn range(cast: bool, src: T, tgt: T, lo: i128, n: u32) -> Case { Case::Conv(Conv { cast, src, tgt, lo, n, extra: vec![] }) }
 
 /// interesting integers: extremes of every integer type and their neighbours, powers of two
 fn int_points() -> Vec<i128> {
@@ -240,10 +327,38 @@ impl Property for P {
             for src in SRC {
                 for tgt in TGT {
                     let pts = src_points(src, tgt, tier);
-                    for ch in pts.chunks(64) { v.push(Case { cast, src, tgt, lo: 0, n: 0, extra: ch.to_vec() }); }
+                    for ch in pts.chunks(64) { v.push(Case::Conv(Conv { cast, src, tgt, lo: 0, n: 0, extra: ch.to_vec() })); }
                 }
             }
         }
+        // comparisons through operator.rs: every ordered pair of numeric types on the boundary numbers of
+        // both types (the same number under both types where it exists, and its neighbours)
+        let pts = cmp_points();
+        for t1 in NUM {
+            for t2 in NUM {
+                let mut items = Vec::new();
+                for x in &pts {
+                    if let Some(p1) = as_payload(t1, *x) {
+                        for d in [0i128, 1, -1] {
+                            if let Some(p2) = as_payload(t2, *x + d) { if items.len() < 60 || tier == "thorough" { items.push(Item { t1, p1, t2, p2 }); } }
+                        }
+                    }
+                }
+                // out of the other type's range on either side
+                let (lo2, hi2) = if t2.is_float() { t1.range() } else { t2.range() };
+                for x in [lo2 - 1, hi2 + 1, lo2, hi2] { if let Some(p1) = as_payload(t1, x) { if let Some(p2) = as_payload(t2, 0) { items.push(Item { t1, p1, t2, p2 }); } } }
+                if t1.is_float() { for b in [f64::NAN, f64::INFINITY, f64::NEG_INFINITY, -0.0, 0.5, 1e30] {
+                    let p1 = if t1 == Float { (b as f32).to_bits() as i128 } else { b.to_bits() as i128 };
+                    for y in [0i128, 1, -1] { if let Some(p2) = as_payload(t2, y) { items.push(Item { t1, p1, t2, p2 }); items.push(Item { t1: t2, p1: p2, t2: t1, p2: p1 }); } }
+                } }
+                for ch in items.chunks(40) { v.push(Case::Cmp(ch.to_vec())); }
+            }
+        }
+        // the same bits under different types, one after the other
+        v.push(Case::Cmp(vec![Item { t1: Int64, p1: 7, t2: Int32, p2: -1 }, Item { t1: Int64, p1: 7, t2: UInt64, p2: u64::MAX as i128 },
+                              Item { t1: UInt64, p1: 7, t2: Int32, p2: -1 }, Item { t1: UInt64, p1: 7, t2: UInt32, p2: u32::MAX as i128 },
+                              Item { t1: UInt64, p1: 1 << 63, t2: Int32, p2: 1 }, Item { t1: Int32, p1: 2, t2: Double, p2: (1.6f64).to_bits() as i128 },
+                              Item { t1: Double, p1: (1.6f64).to_bits() as i128, t2: Int32, p2: 2 }, Item { t1: Int32, p1: -1, t2: UInt64, p2: 5 }, Item { t1: Int32, p1: 0, t2: UInt64, p2: u64::MAX as i128 }]));
         if tier == "thorough" {
             // exhaustive: all 8-bit sources (one range per pair and operation)
             for cast in [false, true] {
@@ -266,6 +381,9 @@ impl Property for P {
         v
     }
     fn gen(r: &mut Rng) -> Case {
+        if r.chance(1, 4) {
+            return if r.chance(1, 2) { Case::Cmp(cmp_history(r)) } else { let k = 1 + r.below(8); Case::Cmp((0..k).map(|_| rand_item(r)).collect()) };
+        }
         let cast = r.chance(1, 2);
         let src = *r.pick(&SRC);
         let tgt = *r.pick(&TGT);
@@ -281,7 +399,7 @@ impl Property for P {
             // several independent payloads for the same pair
             let k = 2 + r.below(7);
             let extra = (0..k).map(|_| actual(src, rand_payload(r, src, tgt))).collect();
-            return Case { cast, src, tgt, lo: 0, n: 0, extra };
+            return Case::Conv(Conv { cast, src, tgt, lo: 0, n: 0, extra });
         }
         let p = rand_payload(r, src, tgt);
         if src.is_float() && r.chance(1, 6) {
@@ -293,6 +411,28 @@ impl Property for P {
         one(cast, src, tgt, p)
     }
     fn exec(c: &Case) -> Out {
+        let c = match c {
+            Case::Conv(c) => c,
+            Case::Cmp(items) => {
+                let mut out = Vec::new();
+                let (mut any_err, mut any_ok, mut mixed) = (false, false, false);
+                for i in items {
+                    let a = mk(i.t1, i.p1); let b = mk(i.t2, i.p2);
+                    let r = five(&a, &b);
+                    // the same comparison again: the answer may not depend on what was compared before
+                    let again = five(&a, &b);
+                    if r.iter().all(|x| *x == 0) { any_err = true } else { any_ok = true }
+                    if i.t1 != i.t2 { mixed = true }
+                    out.extend(r.iter().cloned());
+                    if again != r { out.push(-4); }
+                }
+                let term = format!("(CCmp {})", coq_list(items, |i: &Item| format!("(mk_item {} {} {} {})", i.t1.name(), z(i.p1), i.t2.name(), z(i.p2))));
+                let fl = items.iter().any(|i| i.t1.is_float() || i.t2.is_float());
+                let tag = format!("compare-{}{}{}", if fl { "float" } else { "int" }, if mixed { "-mixedtypes" } else { "" },
+                                  match (any_ok, any_err) { (true, true) => "-some-allfalse", (true, false) => "", _ => "-allfalse" });
+                return Out { tag, term, out };
+            }
+        };
         let ps: Vec<i128> = (0..c.n as i128).map(|i| c.lo + i).chain(c.extra.iter().cloned()).collect();
         // run-length encoding of the pairs (type code, d): d = result - source payload for integer results
         let mut runs: Vec<(i128, i128, i128)> = Vec::new();
@@ -314,7 +454,7 @@ impl Property for P {
         let tag = format!("{}-{}-to-{}{}{}", if c.cast { "cast" } else { "convert" }, kind(c.src), kind(c.tgt),
             if c.n > 1 { "-range" } else if ps.len() > 1 { "-list" } else { "" },
             match (some, none) { (true, true) => "-mixed", (true, false) => "-some", _ => "-none" });
-        let term = format!("(mk_case {} {} {} {} {} {})", if c.cast { "Cast" } else { "Convert" }, c.src.name(), c.tgt.name(), z(c.lo), z(c.n as i128), zlist(c.extra.iter().cloned()));
+        let term = format!("(CConv (mk_case {} {} {} {} {} {}))", if c.cast { "Cast" } else { "Convert" }, c.src.name(), c.tgt.name(), z(c.lo), z(c.n as i128), zlist(c.extra.iter().cloned()));
         Out { tag, term, out }
     }
 }
